@@ -28,8 +28,11 @@ def site_problems(ctx, n):
                                 dict(zone="B", name="c", t_supply=50.0, t_target=120.0, heat_flow=140.0, dt_cont=5.0, htc=1.0)],
                        utilities=[dict(name="MP", type="Both", t_supply=135.0, t_target=134.0, heat_flow=0.0, dt_cont=0.0, htc=1.0, price=1.0)]),
                   dict(zones=2, shapes=["recovery"], regime="both")))
-    for _ in range(n):
-        regime = ctx.rng.choice(["none", "iso", "multi", "multi", "glide"])
+    for i in range(n):
+        if i % 4 == 0:
+            probs.append(pc.gen_header_problem(ctx.rng))      # generation/use at nearly the same utility level
+            continue
+        regime = ctx.rng.choice(["none", "iso", "multi", "steered", "glide"])
         probs.append(pc.gen_problem(ctx.rng, nzones=ctx.rng.choice([1, 2, 2, 3, 4]), regime=regime, nmax=5))
     return probs
 
